@@ -163,6 +163,7 @@ fn ilv_programs() -> Vec<Program> {
     v.push(mk("ilv/put(c,3)||upsert(a,w=1)/W=4", 4, vec![put(1, 2), put(2, 2)], vec![vec![put(3, 3)], vec![Op::Upsert { k: 1, value: true, w: Some(1), ttl_ms: None, remove_ttl: false }]]));
     v.push(mk("ilv/put_ttl(c,2)||{clock;tick}/W=4", 4, vec![put_ttl(1, 2, 1000), put(2, 2)], vec![vec![put_ttl(3, 2, 5000)], vec![adv(3000), Op::Tick]]));
     v.push(mk("ilv/upsert(a,w=1)||{clock;tick} sweeping a/W=6", 6, vec![put_ttl(1, 4, 1000), put(2, 1)], vec![vec![Op::Upsert { k: 1, value: true, w: Some(1), ttl_ms: None, remove_ttl: false }], vec![adv(3000), Op::Tick]]));
+    v.push(mk("ilv/upsert(a,w=1)||{clock;tick} sweeping b/W=6", 6, vec![put(1, 3), put_ttl(2, 3, 1000)], vec![vec![Op::Upsert { k: 1, value: true, w: Some(1), ttl_ms: None, remove_ttl: false }], vec![adv(3000), Op::Tick]]));
     v.push(mk("ilv/evicting-put(c,5)||{tick} sweeping a/W=6", 6, vec![put_ttl(1, 3, 1000), put(2, 3), adv(3000)], vec![vec![put(3, 5)], vec![Op::Tick]]));
     v.push(mk("ilv/put(b,2);put(c,2)||delete(a);put(a,3)/W=4", 4, vec![put(1, 2)], vec![vec![put(2, 2), put(3, 2)], vec![del(1), put(1, 3)]]));
     for (name, w, init, threads) in [
